@@ -771,7 +771,7 @@ Ltac blk_unfold :=
 Ltac pd_rw := repeat progress (rewrite ?pd_chk, ?pd_chke, ?pdelta_app, ?pd_send, ?pd_mint, ?pd_burn, ?pd_emint, ?pd_eburn, ?pd_etransfer, ?pd_nil).
 (* split the conditionals that select the program's shape *)
 Ltac split_prog :=
-  repeat (rewrite ?pd_chk, ?pd_chke, ?pdelta_app;
+  repeat (repeat progress (rewrite ?pd_chk, ?pd_chke, ?pdelta_app);
           match goal with |- context [pdelta _ (if ?b then _ else _)] => destruct b eqn:? end).
 Ltac split_leb := repeat match goal with |- context [Z.leb ?x ?y] => destruct (Z.leb_spec x y) end; cbn [andb orb negb].
 Ltac split_eqb := repeat match goal with |- context [Z.eqb ?x ?y] => destruct (Z.eqb_spec x y) end; cbn [andb orb negb].
